@@ -28,6 +28,17 @@ CLAIMS['C18'] = dict(engine='rtc (E3)', category='exploration',
          'NOSYM, strained) each reported operation satisfies the isometry / lattice / atom-map / spin contract and the set is a group. Not a proof.',
     note='Tolerances fixed in the contract; the catalogue is the bound.')
 
+CLAIMS['C20'] = dict(engine='rtc (E3)', category='exploration',
+    technique='run-time contracts with character-formula oracle on site point groups, Wyckoff orbits and invariant bases; exhaustive subgroup enumeration of the holohedries through the real Combine*/eigen code path (bounded stand-in)',
+    text='Bounded: every site of every catalogue crystal and every subgroup of Oh, D6h (3D, two orientations) and D4, D6, D2 (2D, rotated) gets orthonormal, '
+         'invariant vector and symmetric-tensor bases of exactly the dimension the character formula gives; Wyckoff sets equal brute-force orbits; adding a full orbit keeps |G|.',
+    note='Character formulas trusted as definition; catalogue and listed orientations are the bound.')
+CLAIMS['C21'] = dict(engine='rtc (E3)', category='exploration',
+    technique='run-time postcondition of Crystal.jumpnetwork against an independent brute-force window enumeration (bounded stand-in)',
+    text='Bounded: on every catalogue crystal/species and the first shells, with scalar and per-species obstruction distances, the network equals the brute-force jump set, '
+         'each jump once, classes are single orbits closed under the space group and reversal, and the lattice form encodes the same jumps.',
+    note='Cutoffs/obstruction distances drawn midway between distinct distances; default distance 0 excludes paths through a site (code semantics).')
+
 NOT_APPLICABLE = {
     'C01': 'no contract within reach: the postcondition "equals the infinite-dilution limit of the exact Markov chain, to integration accuracy" needs an independent infinite-lattice solver as oracle (differential testing, a different technique) and no SMT/CAS obligation expresses a quadrature error; the discrete mechanisms it rests on are claimed in C24-C26, its invariances in C04, its sum rules in C06',
     'C05': 'a 2-safety statement about the Loewner order of two outputs (Rayleigh monotonicity): a variational theorem of detailed balance, not an invariant of any loop or a postcondition of one call; its only executable form is a numeric comparison of two runs (testing, not contract checking)',
